@@ -32,7 +32,7 @@ def P(pid, rules, technique, decides, not_decided, assumptions=(),
     }
 
 
-P("C01", ["R08", "R09", "R10", "R11", "R12", "R13c", "R17", "R07", "R34", "R39", "R41", "R04", "R47", "R50", "R36", "R56"],
+P("C01", ["R08", "R09", "R10", "R11", "R12", "R13c", "R17", "R07", "R34", "R39", "R41", "R04", "R47", "R50", "R36", "R56", "R72"],
   "typestate abstract interpretation (dirty/clean fields), carry-loop "
   "symbolic agreement, unit-of-measure inference",
   "R08 in TimePoint.__add__ every incremented time/day field is followed by "
@@ -59,7 +59,7 @@ P("C01", ["R08", "R09", "R10", "R11", "R12", "R13c", "R17", "R07", "R34", "R39",
   ["unit declarations of sa/rules/scale.py (slot -> unit, radix -> ratio), "
    "printed with each obligation"])
 
-P("C02", ["R14", "R15", "R16", "R12", "R08", "R09", "R10", "R43", "R47", "R04", "R50", "R07", "R13ab"],
+P("C02", ["R14", "R15", "R16", "R12", "R08", "R09", "R10", "R43", "R47", "R04", "R50", "R07", "R13ab", "R69"],
   "def-use derivation of comparison-key operands, operator routing checks",
   "R15 every operand whose date/time fields feed the lexicographic key of "
   "_cmp, the hashed tuple of __hash__ and the field-wise difference of "
@@ -143,7 +143,7 @@ P("C06", ["R14", "R13c", "R08", "R09", "R10", "R11", "R12", "R15", "R22",
   "of C01 and the comparison of C02).",
   [], [])
 
-P("C07", ["R23", "R24", "R25", "R26", "R12", "R36", "R37", "R38", "R48", "R35", "R52", "R58", "R59"],
+P("C07", ["R23", "R24", "R25", "R26", "R12", "R36", "R37", "R38", "R48", "R35", "R52", "R58", "R59", "R42", "R70"],
   "constant folding / partial evaluation of the parser tables, regex-AST "
   "shape intersection",
   "R23 every translate row agrees with itself (one named group, capture "
@@ -184,7 +184,7 @@ P("C08", ["R24", "R23", "R14", "R26", "R35", "R37", "R38", "R48", "R36", "R09", 
   "equality after the 6-digit float truncation; custom formats in general.",
   [], [])
 
-P("C09", ["R20", "R21", "R22", "R10", "R11", "R23", "R31", "R33", "R12", "R36", "R04", "R50", "R07", "R53", "R59"],
+P("C09", ["R20", "R21", "R22", "R10", "R11", "R23", "R31", "R33", "R12", "R36", "R04", "R50", "R07", "R53", "R59", "R74"],
   "call-graph reachability of raise sites, must-pass-through analysis, "
   "bound-kind checks, regex star height",
   "R21 with both bypass flags off every exit of TimePoint.__init__ has "
@@ -209,7 +209,7 @@ P("C09", ["R20", "R21", "R22", "R10", "R11", "R23", "R31", "R33", "R12", "R36", 
    "by name: reachable only through error-message formatting of an already "
    "constructed point"], [])
 
-P("C10", ["R27", "R26", "R12", "R40", "R60"],
+P("C10", ["R27", "R26", "R12", "R40", "R60", "R71"],
   "folded writer list vs regex-AST reader sequence",
   "(thin) R27 the designator sequence Duration.__str__ emits (Y M D T H M "
   "S; W alone) equals, unit for unit and in order, the (group, literal) "
@@ -224,7 +224,7 @@ P("C10", ["R27", "R26", "R12", "R40", "R60"],
   "R26 the sign factor multiplies every captured unit.",
   "float -> str -> float fidelity of the digits themselves.", [], [])
 
-P("C11", ["R16", "R17", "R12", "R07", "R40", "R41"],
+P("C11", ["R16", "R17", "R12", "R07", "R40", "R41", "R69"],
   "projection-set comparison of eq/hash/ordering, slot-coverage checks, "
   "unit inference",
   "R16 Duration.__eq__, __hash__ and the four orderings read exact units "
@@ -355,7 +355,7 @@ P("C18", ["R26", "R12", "R14", "R07", "R41", "R42", "R44"],
   "results for actual system zone configurations (read from time.* at run "
   "time).", [], [])
 
-P("C19", ["R30", "R20", "R32", "R12", "R51", "R55", "R63", "R67"],
+P("C19", ["R30", "R20", "R32", "R12", "R51", "R55", "R63", "R67", "R73"],
   "structural try/handler and option-plumbing checks, call-graph "
   "reachability",
   "R30 all four dispatch calls (for the recurrence generator: its loop) "
@@ -416,7 +416,7 @@ CORE_RULES = ("R04", "R05", "R06", "R07", "R08", "R09", "R10", "R11", "R12",
               "R36", "R39", "R41", "R43", "R47", "R49", "R50", "R56", "R57", "R62", "R64",
               # (sixth round) operand mutation, the duration and year-range
               # text tables, and the rules added with that round
-              "R01", "R02", "R03", "R27", "R54", "R65", "R66")
+              "R01", "R02", "R03", "R27", "R54", "R65", "R66", "R69", "R70", "R71", "R72")
 
 ENTRY_POINTS = {
     "C01": ["data.TimePoint.__add__", "data.TimePoint.__radd__"],
